@@ -34,7 +34,7 @@ ASSUMPTIONS = ['the SHA-1/base64 of the model (Model/Sha1.lean, Handshake.accept
                'constructs outside the RFC grammar on which the property text is silent are compared model-vs-code only '
                '(status forms int() accepts such as +101/0101/1_01, VT/FF/FS-US around values, unknown extension parameters)']
 
-LEANCHECK_MODULES = ['Lomond.Proofs.Http', 'Lomond.Proofs.HandshakeCore', 'Lomond.Proofs.Sha1', 'Lomond.Model.Handshake', 'Lomond.Model.Http',
+LEANCHECK_MODULES = ['Lomond.Proofs.Http', 'Lomond.Proofs.HttpDup', 'Lomond.Proofs.HandshakeRun', 'Lomond.Proofs.HandshakeRunG', 'Lomond.Proofs.HandshakeCore', 'Lomond.Proofs.Sha1', 'Lomond.Model.Handshake', 'Lomond.Model.Http',
                      'Lomond.Model.Sha1', 'Lomond.Model.Attempt']
 
 GUID = b'258EAFA5-E914-47DA-95CA-C5AB0DC85B11'      # RFC 6455 section 1.3 (not imported from lomond)
@@ -260,6 +260,103 @@ FILLER = [(b'Server', b'nginx/1.18.0 (Ubuntu)'), (b'Date', b'Tue, 29 Sep 2026 10
           (b'Sec-WebSocket-Version', b'13'), (b'X-Upgrade', b'h2c'), (b'Accept', b'*/*'), (b'X-Sec-WebSocket-Accept', b'nope')]
 
 
+# repeated header names (C10_Wire2: every occurrence counts -- the values are joined with ',' in wire order, so a repeated
+# Upgrade / Sec-WebSocket-Accept is refused whatever its values; a repeated extension / filler field is harmless)
+DUP_KINDS = ['accept-good-bad', 'accept-bad-good', 'accept-good-good', 'accept-good-empty', 'accept-lower-good', 'accept-three',
+             'upgrade-ws-ws', 'upgrade-ws-h2c', 'upgrade-h2c-ws', 'upgrade-case-pair',
+             'ext-valid-valid', 'ext-valid-unknown', 'ext-unknown-valid', 'ext-valid-invalid', 'ext-invalid-valid',
+             'filler-dup', 'filler-triple', 'protocol-dup', 'connection-dup']
+# continuation lines (obs-folds) inside a value (C10_Wire2: each fold becomes one SP)
+FOLD_KINDS = ['filler-multi', 'filler-trailing-blanks', 'ext-between-params', 'ext-after-comma', 'ext-inside-param', 'accept-mid', 'accept-two-folds',
+              'accept-blank-cont', 'accept-after-colon-tab', 'upgrade-mid', 'upgrade-blank-cont', 'proto-fold', 'all-folded']
+
+
+def dup_fields(rng, sub, digest, key):
+    """(upgrade values, accept values, extension values, extra (name, value) fields, intended verdict)"""
+    other = rfc_accept(base64.b64encode(bytes(rng.getrandbits(8) for _ in range(16))))
+    up, acc, exts, extra, intended = [b'websocket'], [digest], [], [], 'ready'
+    if sub == 'accept-good-bad':
+        acc, intended = [digest, other], 'rejected'
+    elif sub == 'accept-bad-good':
+        acc, intended = [other, digest], 'rejected'
+    elif sub == 'accept-good-good':
+        acc, intended = [digest, digest], 'rejected'
+    elif sub == 'accept-good-empty':
+        acc, intended = rng.choice([[digest, b''], [b'', digest]]), 'rejected'
+    elif sub == 'accept-lower-good':
+        acc, intended = rng.choice([[digest.lower(), digest], [digest, digest.lower()]]), 'rejected'
+    elif sub == 'accept-three':
+        acc, intended = [digest, other, digest], 'rejected'
+    elif sub == 'upgrade-ws-ws':
+        up, intended = [b'websocket', b'websocket'], 'rejected'
+    elif sub == 'upgrade-ws-h2c':
+        up, intended = [b'websocket', b'h2c'], 'rejected'
+    elif sub == 'upgrade-h2c-ws':
+        up, intended = [b'h2c', b'websocket'], 'rejected'
+    elif sub == 'upgrade-case-pair':
+        up, intended = [b'WebSocket', b'websocket'], 'rejected'
+    elif sub == 'ext-valid-valid':
+        exts = [rng.choice(EXT_VALID), rng.choice(EXT_VALID)]
+    elif sub == 'ext-valid-unknown':
+        exts = [rng.choice(EXT_VALID), b'x-unknown-ext; a=1']
+    elif sub == 'ext-unknown-valid':
+        exts = [b'x-unknown-ext', rng.choice(EXT_VALID)]
+    elif sub == 'ext-valid-invalid':
+        exts, intended = [rng.choice(EXT_VALID), rng.choice(EXT_INVALID[:9])], 'rejected'
+    elif sub == 'ext-invalid-valid':
+        exts, intended = [rng.choice(EXT_INVALID[:9]), rng.choice(EXT_VALID)], 'rejected'
+    elif sub == 'filler-dup':
+        extra = [(b'Server', b'one'), (b'Server', b'two')]
+    elif sub == 'filler-triple':
+        extra = [(b'Via', b'1.1 a'), (b'via', b'1.1 b'), (b'VIA', b'1.1 a')]
+    elif sub == 'protocol-dup':
+        extra = [(b'Sec-WebSocket-Protocol', b'chat'), (b'Sec-WebSocket-Protocol', b'superchat')]
+    elif sub == 'connection-dup':
+        extra = [(b'Connection', b'keep-alive'), (b'Connection', b'Upgrade')]
+    else:
+        raise ValueError(sub)
+    return up, acc, exts, extra, intended
+
+
+def fold_fields(rng, sub, digest, key):
+    """like dup_fields; a value containing CR LF is written as it stands (`Name: value`)"""
+    ws = lambda: rng.choice([b' ', b'\t', b'  ', b' \t', b'\t\t '])
+    up, acc, exts, extra, intended = [b'websocket'], [digest], [], [], 'ready'
+    if sub == 'filler-multi':
+        extra = [(b'X-Long', b'part one' + CRLF + ws() + b'part two' + CRLF + ws() + b'part three')]
+    elif sub == 'filler-trailing-blanks':
+        extra = [(b'X-Long', b'a \t' + CRLF + ws() + b'b  ' + CRLF + ws() + b'c\t')]
+    elif sub == 'ext-between-params':
+        exts = [b'permessage-deflate;' + CRLF + ws() + b'client_max_window_bits=%d' % rng.randint(8, 15)]
+    elif sub == 'ext-after-comma':
+        exts = [b'permessage-deflate; server_max_window_bits=12,' + CRLF + ws() + b'x-foo']
+    elif sub == 'ext-inside-param':
+        # the fold becomes a blank between name and '=': parameter names/values are stripped by lomond, RFC 7692 has no blanks there
+        exts, intended = [b'permessage-deflate; client_max_window_bits' + CRLF + ws() + b'=10'], None
+    elif sub == 'accept-mid':
+        k = rng.randrange(1, len(digest) - 1)
+        acc, intended = [digest[:k] + CRLF + ws() + digest[k:]], 'rejected'
+    elif sub == 'accept-two-folds':
+        acc, intended = [digest[:5] + CRLF + ws() + digest[5:11] + CRLF + ws() + digest[11:]], 'rejected'
+    elif sub == 'accept-blank-cont':
+        acc = [digest + CRLF + ws()]
+    elif sub == 'accept-after-colon-tab':
+        acc = [CRLF + b'\t' + digest + b' ']
+    elif sub == 'upgrade-mid':
+        up, intended = [b'web' + CRLF + ws() + b'socket'], 'rejected'
+    elif sub == 'upgrade-blank-cont':
+        up = [b'websocket' + CRLF + ws()]
+    elif sub == 'proto-fold':
+        extra = [(b'Sec-WebSocket-Protocol', b'chat,' + CRLF + b' superchat')]
+    elif sub == 'all-folded':
+        up, acc = [CRLF + ws() + b'WebSocket'], [CRLF + ws() + digest]
+        exts = [CRLF + ws() + b'permessage-deflate']
+        extra = [(b'Server', CRLF + ws() + b'x' + CRLF + ws() + b'y')]
+    else:
+        raise ValueError(sub)
+    return up, acc, exts, extra, intended
+
+
 def wrong_accept(rng, kind, digest, key):
     """list of accept header values (zero, one or two header fields) + a fold request"""
     d = digest
@@ -324,7 +421,8 @@ def gen_reply(rng, key, mode=None):
     """a reply header block built from a semantic description.
        returns (block bytes, meta dict(mode, intended verdict, ...))"""
     digest = rfc_accept(key)
-    mode = mode or rng.choice(['good'] * 5 + ['status', 'status-lenient', 'status-broken', 'upgrade', 'accept', 'accept', 'accept', 'ext-valid', 'ext-invalid', 'ext-odd', 'anomaly'])
+    mode = mode or rng.choice(['good'] * 5 + ['status', 'status-lenient', 'status-broken', 'upgrade', 'accept', 'accept', 'accept', 'ext-valid', 'ext-invalid', 'ext-odd', 'anomaly',
+                                    'dup', 'dup', 'fold', 'fold'])
     version = b'HTTP/1.1'
     code = b'101'
     reason = rng.choice([b'Switching Protocols', b'Switching Protocols', b'Web Socket Protocol Handshake', b'OK', b'', b'switching  protocols 101', b'x'])
@@ -334,7 +432,15 @@ def gen_reply(rng, key, mode=None):
     exts = []
     proto = rng.choice(PROTOCOLS)
     sub = None
-    if mode == 'status':
+    extra_fields = []
+    if ':' in mode:                                  # 'dup:<kind>' / 'fold:<kind>': a chosen kind
+        mode, sub = mode.split(':', 1)
+    if mode in ('dup', 'fold'):
+        sub = sub or rng.choice(DUP_KINDS if mode == 'dup' else FOLD_KINDS)
+        upgrade, accept, exts, extra_fields, intended = (dup_fields if mode == 'dup' else fold_fields)(rng, sub, digest, key)
+        if any(n == b'Sec-WebSocket-Protocol' for n, _ in extra_fields):
+            proto = None
+    elif mode == 'status':
         code = rng.choice(STATUS_OTHER); intended = 'rejected'; sub = code.decode()
     elif mode == 'status-lenient':
         code = rng.choice(STATUS_LENIENT); intended = 'either'; sub = code.decode()
@@ -367,6 +473,7 @@ def gen_reply(rng, key, mode=None):
     if proto is not None:
         fields.append((b'Sec-WebSocket-Protocol', proto))
     fields += [(b'Sec-WebSocket-Extensions', e) for e in exts]
+    fields += extra_fields
     for _ in range(rng.choice([0, 1, 1, 2, 3, 5])):
         fields.append(rng.choice(FILLER))
     # any order -- but duplicates of the same name keep their relative order only by chance (that is the point)
@@ -691,17 +798,19 @@ AFTER = server_frame(1, b'AFTER')
 AFTER_TOK = 'E:text:' + b'AFTER'.hex()
 
 
-def conn_scenario(rng, tier, i, variant):
-    """one whole-connection case. returns (scenario, meta)"""
+def conn_scenario(rng, tier, i, variant, mode=None):
+    """one whole-connection case. returns (scenario, meta); `mode` forces a reply of that generator mode"""
     url = rng.choice(['ws://example.com/chat', 'ws://example.com/chat', 'wss://example.com/', 'ws://h:8080/a?b=c', 'wss://Example.com:443', 'ws://127.0.0.1:80/x/y?z'])
     compress = rng.random() < 0.4
     offered = rng.choice(PROTO_OFFERS[:5])
     sc = Scenario([], prate=0, url=url, compress=compress, protocols=offered, key_seed=rng.randrange(1 << 20), variant=variant)
     key = sc.key()
     kind = rng.choice(['reply'] * 8 + ['limit'] * 2 + ['unterminated'])
+    if mode is not None:
+        kind = 'reply'
     meta = dict(kind=kind)
     if kind == 'reply':
-        block, m = gen_reply(rng, key)
+        block, m = gen_reply(rng, key, mode)
         meta.update(m)
         tail = rng.choice([b'', AFTER, AFTER, AFTER + server_frame(9, b'p') + server_frame(2, b'\x00\x01')])
         data = block + tail
@@ -937,11 +1046,13 @@ def explore(res, tier, seed, model_ok=True):
     res.rule = ('(1) reply header blocks built from a semantic description: status (101 / other codes / forms int() accepts / broken), Upgrade variants, '
                 '%d kinds of wrong Sec-WebSocket-Accept (digest of another key, swapcase/lower/upper/one letter, truncations, padding, duplicates, folded, ...), '
                 'protocols, permessage-deflate parameter spellings (valid / invalid / odd), filler and duplicate fields, in any order, any name casing, blanks/tabs around '
-                'values, obs-folds; plus a malformed stream (23 anomaly kinds) and byte-level mutations (insert/delete/replace/duplicate with CR LF TAB VT FF FS US : , ; = " _ + - 0 1 0x80 0xff NUL) -- run on Response+on_response and on the model; '
+                'values, obs-folds; %d kinds of repeated header names (Upgrade / Sec-WebSocket-Accept / extensions / protocol / filler, equal and different values, both orders) and '
+                '%d kinds of continuation lines inside values (filler, extension list, accept, upgrade, protocol; several folds, trailing blanks, blank continuation lines), each kind '
+                'forced at least once in layers 1 and 3; plus a malformed stream (23 anomaly kinds) and byte-level mutations (insert/delete/replace/duplicate with CR LF TAB VT FF FS US : , ; = " _ + - 0 1 0x80 0xff NUL) -- run on Response+on_response and on the model; '
                 '(2) clients: URL shapes (ws/wss, default/explicit/zero port, userinfo, path, query, fragment) x agent x offered protocols x custom headers x compress, '
                 '1-4 connects on one object with a logged os.urandom -- request actually written vs model vs RFC 7230 reader; '
                 '(3) whole connections: the same replies x segmentation (whole, random, around the terminator, byte-wise) x trailing frames x header blocks of exactly '
-                '16383..16386 and more bytes, terminated or not; non-trivial = anything but the canonical plain good reply; distinct by wire bytes + segmentation') % len(WRONG_ACCEPT)
+                '16383..16386 and more bytes, terminated or not; non-trivial = anything but the canonical plain good reply; distinct by wire bytes + segmentation') % (len(WRONG_ACCEPT), len(DUP_KINDS), len(FOLD_KINDS))
     strict = detect_strict()
     variant = '11111' + ('1' if strict else '0')
     res.notes.append('variant detection: Sec-WebSocket-Accept compared %s on the real code' % ('exactly' if strict else 'case-insensitively (D5)'))
@@ -949,7 +1060,8 @@ def explore(res, tier, seed, model_ok=True):
     # ---------------- layer 1 ----------------------------------------------------------------
     n1 = 1500 if quick else 30000
     items, metas = [], []
-    modes = ['good', 'status', 'status-lenient', 'status-broken', 'upgrade', 'accept', 'ext-valid', 'ext-invalid', 'ext-odd', 'anomaly']
+    modes = (['good', 'status', 'status-lenient', 'status-broken', 'upgrade', 'accept', 'ext-valid', 'ext-invalid', 'ext-odd', 'anomaly'] +
+             ['dup:' + k for k in DUP_KINDS] + ['fold:' + k for k in FOLD_KINDS])
     for i in range(n1):
         key = base64.b64encode(bytes(rng.getrandbits(8) for _ in range(16)))
         # every mode (and every wrong-accept kind) is hit from the start; the rest is drawn from the mixture
@@ -1010,6 +1122,8 @@ def explore(res, tier, seed, model_ok=True):
         res.count('resp:' + m['mode'])
         if m['mode'] == 'accept':
             res.count('accept:' + m['sub'])
+        if m['mode'] in ('dup', 'fold'):
+            res.count('%s:%s' % (m['mode'], m['sub']))
         res.traces_validated += 1
         if models is not None and models[i] != real:
             res.diffs.append(dict(input='http resp %d %s %s' % (1 if strict else 0, key.hex(), block.hex()), real=real[-1200:], model=models[i][-1200:]))
@@ -1098,8 +1212,10 @@ def explore(res, tier, seed, model_ok=True):
     # ---------------- layer 3 ----------------------------------------------------------------
     n3 = 260 if quick else 4000
     scs, metas3 = [], []
+    forced3 = ['dup:' + k for k in DUP_KINDS] + ['fold:' + k for k in FOLD_KINDS]
     for i in range(n3):
-        sc, meta = conn_scenario(rng, tier, i, variant)
+        # every repeated-name / continuation-line kind runs as a whole connection from the start; the rest is the mixture
+        sc, meta = conn_scenario(rng, tier, i, variant, forced3[i] if i < len(forced3) else None)
         scs.append(sc)
         metas3.append(meta)
     # corpus: the D5 witness and the two limit witnesses always run
@@ -1132,6 +1248,8 @@ def explore(res, tier, seed, model_ok=True):
         res.case(line, nontrivial=not canonical)
         res.count('conn:' + meta['kind'])
         res.count('conn:mode:' + str(meta.get('mode')))
+        if meta.get('mode') in ('dup', 'fold'):
+            res.count('conn:%s:%s' % (meta['mode'], meta.get('sub')))
         res.count('conn:seg:' + str(meta.get('seg')))
         judge_conn(res, js, line, real, meta, sc)
         res.count('conn:want:' + str(meta.get('want')))
